@@ -1,6 +1,259 @@
-//! C35: not implemented yet.
+//! C35: short reads/writes and injected I/O failures.
+//! case: {op:"read"|"sign", fixture, format, alg?, settings?, seeds:[u64..] (chunked runs), maxchunk,
+//!        fail:[[k, sticky(bool)]..] (failure at the k-th stream call, counted over source and destination),
+//!        fail_kinds?: "all"|"read"|"write"|"seek"}
+//! result: {"r":"ok", "base": outcome, "ops": n (stream calls of the unfaulted run), "kinds": {read,write,seek,flush},
+//!          "chunked":[{seed, out, ops}], "failed":[{k, sticky, kind (which call failed), out}]}
+//! outcome = {"err": class} | {"ok": shape} | {"panic": msg}
+use std::{
+    io::{self, Cursor, Read, Seek, SeekFrom, Write},
+    sync::{Arc, Mutex},
+};
+
+use c2pa::{Builder, Reader};
 use serde_json::{json, Value};
 
-pub fn run(_case: &Value) -> Value {
-    json!({"r": "unimplemented"})
+use crate::{c40::shape, e2e, util::*};
+
+#[derive(Default, Clone)]
+struct Plan {
+    /// 0 = full reads/writes; otherwise each call moves 1..=maxchunk bytes (seeded)
+    maxchunk: usize,
+    rng: u64,
+    /// fail the call with this index (over all counted calls of both streams)
+    fail_at: Option<u64>,
+    sticky: bool,
+    /// which calls are counted for fail_at: 0 all, 1 read, 2 write, 3 seek
+    fail_kinds: u8,
+}
+
+#[derive(Default)]
+struct Shared {
+    plan: Plan,
+    calls: u64,   // all calls
+    counted: u64, // calls of the selected kinds
+    reads: u64,
+    writes: u64,
+    seeks: u64,
+    flushes: u64,
+    failed_kind: Option<&'static str>,
+    tripped: bool,
+    want_trace: bool,
+    trace: Vec<String>,
+}
+
+impl Shared {
+    fn next(&mut self) -> u64 {
+        // xorshift64*
+        let mut x = self.plan.rng | 1;
+        x ^= x >> 12;
+        x ^= x << 25;
+        x ^= x >> 27;
+        self.plan.rng = x;
+        x.wrapping_mul(0x2545F4914F6CDD1D)
+    }
+
+    /// bookkeeping for one call; Err when this call is to fail
+    fn call(&mut self, kind: &'static str) -> io::Result<()> {
+        self.calls += 1;
+        match kind {
+            "read" => self.reads += 1,
+            "write" => self.writes += 1,
+            "seek" => self.seeks += 1,
+            _ => self.flushes += 1,
+        }
+        let selected = match self.plan.fail_kinds {
+            0 => true,
+            1 => kind == "read",
+            2 => kind == "write",
+            _ => kind == "seek",
+        };
+        if self.tripped && self.plan.sticky {
+            return Err(io::Error::other("injected failure (sticky)"));
+        }
+        if selected {
+            let idx = self.counted;
+            self.counted += 1;
+            if self.plan.fail_at == Some(idx) {
+                self.tripped = true;
+                self.failed_kind = Some(kind);
+                if self.want_trace {
+                    // innermost SDK frames of the failing call (function names only)
+                    let bt = std::backtrace::Backtrace::force_capture().to_string();
+                    self.trace = bt
+                        .lines()
+                        .filter(|l| l.contains("c2pa::") && !l.contains("verif_harness"))
+                        .map(|l| l.trim().splitn(2, ": ").nth(1).unwrap_or(l).to_string())
+                        .take(16)
+                        .collect();
+                }
+                return Err(io::Error::other("injected failure"));
+            }
+        }
+        Ok(())
+    }
+
+    fn piece(&mut self, want: usize) -> usize {
+        if self.plan.maxchunk == 0 || want <= 1 {
+            want
+        } else {
+            let m = self.plan.maxchunk as u64;
+            (1 + (self.next() % m) as usize).min(want)
+        }
+    }
+}
+
+/// A stream over an in-memory buffer that serves short reads/writes and fails on demand.
+struct Flaky {
+    inner: Cursor<Vec<u8>>,
+    sh: Arc<Mutex<Shared>>,
+}
+
+impl Read for Flaky {
+    fn read(&mut self, buf: &mut [u8]) -> io::Result<usize> {
+        let n = {
+            let mut s = self.sh.lock().unwrap();
+            s.call("read")?;
+            s.piece(buf.len())
+        };
+        self.inner.read(&mut buf[..n])
+    }
+}
+
+impl Write for Flaky {
+    fn write(&mut self, buf: &[u8]) -> io::Result<usize> {
+        let n = {
+            let mut s = self.sh.lock().unwrap();
+            s.call("write")?;
+            s.piece(buf.len())
+        };
+        self.inner.write(&buf[..n])
+    }
+
+    fn flush(&mut self) -> io::Result<()> {
+        self.sh.lock().unwrap().call("flush")?;
+        self.inner.flush()
+    }
+}
+
+impl Seek for Flaky {
+    fn seek(&mut self, pos: SeekFrom) -> io::Result<u64> {
+        self.sh.lock().unwrap().call("seek")?;
+        self.inner.seek(pos)
+    }
+}
+
+struct Env<'a> {
+    op: &'a str,
+    format: &'a str,
+    alg: &'a str,
+    settings: Option<&'a str>,
+    def: String,
+    src: Vec<u8>,
+}
+
+/// One execution under a plan.  Returns (outcome, total calls, per-kind counts, kind of the failed call).
+fn exec(env: &Env, plan: Plan, want_trace: bool) -> (Value, u64, Value, Option<&'static str>, Vec<String>) {
+    let sh = Arc::new(Mutex::new(Shared { plan, want_trace, ..Default::default() }));
+    let sh2 = sh.clone();
+    let res = std::panic::catch_unwind(std::panic::AssertUnwindSafe(|| -> c2pa::Result<Value> {
+        match env.op {
+            "read" => {
+                let stream = Flaky { inner: Cursor::new(env.src.clone()), sh: sh2.clone() };
+                let r = Reader::from_context(e2e::context(env.settings)).with_stream(env.format, stream)?;
+                Ok(shape(&r))
+            }
+            _ => {
+                let signer = e2e::signer(env.alg);
+                let mut b = Builder::from_context(e2e::context(env.settings)).with_definition(env.def.as_str())?;
+                let mut input = Flaky { inner: Cursor::new(env.src.clone()), sh: sh2.clone() };
+                let mut out = Flaky { inner: Cursor::new(Vec::new()), sh: sh2.clone() };
+                b.sign(signer.as_ref(), env.format, &mut input, &mut out)?;
+                let bytes = out.inner.into_inner();
+                // the signed asset is read back through an ordinary cursor: what matters is what was written
+                let r = e2e::read(e2e::context(env.settings), env.format, &bytes);
+                match r {
+                    Ok(r) => Ok(json!({"signed": shape(&r)})),
+                    Err(e) => Ok(json!({"signed_unreadable": err_class(&e)})),
+                }
+            }
+        }
+    }));
+    let s = sh.lock().unwrap_or_else(|p| p.into_inner());
+    let kinds = json!({"read": s.reads, "write": s.writes, "seek": s.seeks, "flush": s.flushes});
+    let out = match res {
+        Ok(Ok(v)) => json!({"ok": v}),
+        Ok(Err(e)) => json!({"err": err_class(&e)}),
+        Err(p) => {
+            let msg = p.downcast_ref::<String>().cloned().or_else(|| p.downcast_ref::<&str>().map(|s| s.to_string())).unwrap_or_default();
+            json!({"panic": msg})
+        }
+    };
+    (out, s.calls, kinds, s.failed_kind, s.trace.clone())
+}
+
+pub fn run(case: &Value) -> Value {
+    let settings_s = case.get("settings").filter(|v| !v.is_null()).map(|v| v.to_string());
+    let env = Env {
+        op: case["op"].as_str().unwrap_or("read"),
+        format: case["format"].as_str().unwrap_or("image/jpeg"),
+        alg: case["alg"].as_str().unwrap_or("ed25519"),
+        settings: settings_s.as_deref(),
+        def: if case["def"].is_null() { e2e::minimal_manifest("c35") } else { case["def"].to_string() },
+        src: e2e::fixture(case["fixture"].as_str().unwrap_or("CA.jpg")),
+    };
+    let fail_kinds = match case["fail_kinds"].as_str().unwrap_or("all") {
+        "read" => 1,
+        "write" => 2,
+        "seek" => 3,
+        _ => 0,
+    };
+    let maxchunk = case["maxchunk"].as_u64().unwrap_or(7) as usize;
+    let want_trace = case["trace"].as_bool().unwrap_or(false);
+    let (base, ops, kinds, _, _) = exec(&env, Plan::default(), false);
+    let mut chunked = vec![];
+    for s in case["seeds"].as_array().cloned().unwrap_or_default() {
+        let seed = u64_of(&s);
+        let (out, n, _, _, _) = exec(&env, Plan { maxchunk, rng: seed.wrapping_mul(0x9E3779B97F4A7C15) | 1, ..Default::default() }, false);
+        chunked.push(json!({"seed": seed, "out": out, "ops": n}));
+    }
+    let mut failed = vec![];
+    let mut fail_list = case["fail"].as_array().cloned().unwrap_or_default();
+    // fail_auto: {n, seed, sticky_every}: the first 10 and last 5 calls plus seeded picks, n in all (every call when n >= ops)
+    if let Some(fa) = case.get("fail_auto").filter(|v| v.is_object()) {
+        let n = fa["n"].as_u64().unwrap_or(40);
+        let mut x = fa["seed"].as_u64().unwrap_or(1).wrapping_mul(0x9E3779B97F4A7C15) | 1;
+        let se = fa["sticky_every"].as_u64().unwrap_or(4).max(1);
+        let total = if fail_kinds == 0 { ops } else { kinds[["", "read", "write", "seek"][fail_kinds as usize]].as_u64().unwrap_or(0) };
+        let mut ks: Vec<u64> = vec![];
+        if n >= total {
+            ks = (0..total).collect();
+        } else {
+            ks.extend(0..10.min(total));
+            ks.extend(total.saturating_sub(5)..total);
+            while (ks.len() as u64) < n {
+                x ^= x >> 12;
+                x ^= x << 25;
+                x ^= x >> 27;
+                let k = x.wrapping_mul(0x2545F4914F6CDD1D) % total;
+                if !ks.contains(&k) {
+                    ks.push(k);
+                }
+            }
+            ks.sort();
+            ks.dedup();
+        }
+        for (i, k) in ks.iter().enumerate() {
+            fail_list.push(json!([k, (i as u64) % se == se - 1, if i % 3 == 2 { 7 } else { 0 }]));
+        }
+    }
+    for f in fail_list {
+        let k = u64_of(&f[0]);
+        let sticky = f[1].as_bool().unwrap_or(false);
+        let short = f.get(2).and_then(|v| v.as_u64()).unwrap_or(0);
+        let plan = Plan { maxchunk: if short > 0 { maxchunk } else { 0 }, rng: short | 1, fail_at: Some(k), sticky, fail_kinds };
+        let (out, n, _, kind, trace) = exec(&env, plan, want_trace);
+        failed.push(json!({"k": k, "sticky": sticky, "kind": kind, "out": out, "ops": n, "trace": trace}));
+    }
+    json!({"r": "ok", "base": base, "ops": ops, "kinds": kinds, "chunked": chunked, "failed": failed})
 }
